@@ -80,7 +80,7 @@ func TestVerifC14(t *testing.T) {
 	ctx := context.Background()
 
 	orders := [][]string{{"push"}, {"log"}, {"push", "push"}, {"push", "log"}, {"log", "push"}, {"push", "log", "push"}}
-	nsess := verifkit.Pick(36, 360)
+	nsess := verifkit.Pick(36, 1500)
 	for si := 0; si < nsess; si++ {
 		rng := verifkit.Rand(fmt.Sprintf("c14-%d", si))
 		W := []int{2, 5, 100}[si%3]
